@@ -86,21 +86,28 @@ func (fp *FilePath) Write(b []byte) (n int, err error) {
 	return n, nil
 }
 
-// IsDropbox checks if a FilePath matches the special drop box folder type
-func (fp *FilePath) IsDropbox() bool {
-	if fp.Len() == 0 {
-		return false
+// resolvedName returns the name of the folder the path resolves to, computed the way ReadPath resolves it ("." and
+// empty items dropped, ".." stepping up), so that a privilege check and the path actually used agree.
+func (fp *FilePath) resolvedName() string {
+	var subPath string
+	for _, pathItem := range fp.Items {
+		subPath = filepath.Join("/", subPath, string(pathItem.Name))
 	}
 
-	return strings.Contains(strings.ToLower(string(fp.Items[fp.Len()-1].Name)), "drop box")
+	if subPath == "" || subPath == "/" {
+		return ""
+	}
+
+	return filepath.Base(subPath)
+}
+
+// IsDropbox checks if a FilePath matches the special drop box folder type
+func (fp *FilePath) IsDropbox() bool {
+	return strings.Contains(strings.ToLower(fp.resolvedName()), "drop box")
 }
 
 func (fp *FilePath) IsUploadDir() bool {
-	if fp.Len() == 0 {
-		return false
-	}
-
-	return strings.Contains(strings.ToLower(string(fp.Items[fp.Len()-1].Name)), "upload")
+	return strings.Contains(strings.ToLower(fp.resolvedName()), "upload")
 }
 
 func (fp *FilePath) Len() uint16 {
